@@ -75,8 +75,8 @@ def check_exact(case, ctx):
             ap = make_aperture(case['shape'], (case['x'], case['y']),
                                case.get('theta_q', False))
             v.info['kind'] = shape['kind']
-            v.info['corner_on_boundary'] = _corner_on_boundary(
-                shape, case['x'], case['y'], ap.bbox)
+            v.info['degenerate_contact'] = G.degenerate_contact(
+                shape, case['x'], case['y'])
         raise
 
 
@@ -172,7 +172,7 @@ def _annulus_parts(case):
 @st.composite
 def exact_cases(draw):
     adv = draw(st.sampled_from(['none'] * 6 + ['corner', 'tangent',
-                                               'vertex']))
+                                               'vertex', 'etangent']))
     x = draw(centre_coord())
     y = draw(centre_coord())
     if adv == 'none':
@@ -191,6 +191,15 @@ def exact_cases(draw):
         if draw(st.booleans()):
             sh = {'kind': 'cannulus', 'r_out': r,
                   'r_in': r * draw(st.floats(0.05, 0.999))}
+    elif adv == 'etangent':
+        # axis-aligned ellipse (nearly) tangent to a pixel edge: the centre
+        # is a decimal such that y - b rounds to a half-integer
+        a_ = draw(st.sampled_from([1.0, 1.2, 2.3, 0.7, 3.1]))
+        b_ = draw(st.sampled_from([0.2, 0.3, 0.6, 0.1, 1.1]))
+        x = draw(st.sampled_from([0.0, 0.25, 3.3]))
+        y = draw(st.integers(-5, 20)) + 0.5 + b_ * draw(st.sampled_from([1, -1]))
+        sh = {'kind': 'ellipse', 'a': a_, 'b': b_,
+              'theta': draw(st.sampled_from([0.0, math.pi]))}
     else:
         # ellipse vertex 1e-10 from a pixel corner
         a = draw(log_uniform(0.5, 20))
